@@ -161,6 +161,10 @@ class SymEval:
         """Nested python lists of scalars -> SArray."""
         if isinstance(v, SArray):
             return v
+        if isinstance(v, Rec):
+            return SArray((len(v.cols),), {(i,): self.rat(x) for i, x in
+                                            enumerate(v.cols.values())}, None,
+                          v.kind == 'frame')
         if isinstance(v, (list, tuple)):
             if v and all(isinstance(x, (list, tuple, SArray)) for x in v):
                 subs = [self.to_array(x) for x in v]
@@ -282,6 +286,8 @@ class SymEval:
     def transpose(self, a):
         if not isinstance(a, SArray):
             return a
+        if getattr(a, 'stacked_rows', False):
+            return SArray(a.shape, dict(a.entries), a.default, True)
         if len(a.shape) == 1:
             return a
         if len(a.shape) == 2:
@@ -519,6 +525,16 @@ class SymEval:
         elif isinstance(t, ast.Subscript):
             base = self.eval(t.value, env)
             idx = self.eval_index(t.slice, env)
+            if isinstance(idx, bool) and isinstance(t.value, ast.Name) and \
+                    (isinstance(base, (Rat, int, float)) or
+                     (isinstance(base, Opaque) and base.tag == 'uninit')):
+                # per-sample array evaluated for the generic element: X[mask] = v
+                if idx:
+                    env[t.value.id] = v
+                return
+            if isinstance(base, Rat) and isinstance(idx, tuple) and \
+                    all(isinstance(x, int) for x in idx):
+                return            # one row of a per-sample scalar: the generic sample is unaffected
             self.store(base, idx, v, t)
         elif isinstance(t, ast.Attribute):
             base = self.eval(t.value, env)
@@ -703,6 +719,8 @@ class SymEval:
             t = self.truth(v)
             return UNK if t is None else (not t)
         if isinstance(node.op, ast.Invert):
+            if isinstance(v, bool):
+                return not v
             return Opaque('invert', v)
         raise Unsupported('unary')
 
@@ -717,9 +735,9 @@ class SymEval:
                 isinstance(b, (list, tuple)) and not (
                     a and isinstance(a[0], (Rat,)) ):
             return list(a) + list(b)
-        if isinstance(a, (list, tuple)):
+        if isinstance(a, (list, tuple, Rec)):
             a = self.to_array(a)
-        if isinstance(b, (list, tuple)):
+        if isinstance(b, (list, tuple, Rec)):
             b = self.to_array(b)
         pyn = lambda x: isinstance(x, (int, float)) and not isinstance(x, bool)
         if isinstance(op, ast.MatMult):
@@ -762,6 +780,10 @@ class SymEval:
         a = self.eval(node.left, env)
         b = self.eval(node.comparators[0], env)
         op = node.ops[0]
+        if self.hooks is not None and hasattr(self.hooks, 'compare'):
+            r = self.hooks.compare(self, node, a, b)
+            if r is not None:
+                return r
         if isinstance(op, (ast.Is, ast.IsNot)):
             if a is None or b is None:
                 r = (a is None and b is None)
@@ -982,6 +1004,11 @@ class SymEval:
                 return base[idx]
         if isinstance(base, dict):
             return base[idx]
+        if isinstance(idx, bool) and isinstance(base, (Rat, int, float)):
+            return base
+        if isinstance(base, Rat) and isinstance(idx, tuple) and all(
+                x is None or isinstance(x, (slice, int)) for x in idx):
+            return base          # per-sample scalar viewed as a column / one of its rows
         if isinstance(base, Opaque):
             return Opaque('sub', base, idx)
         raise Unsupported('subscript of %r' % (base,))
@@ -1058,7 +1085,11 @@ class SymEval:
         args = []
         for a in node.args:
             if isinstance(a, ast.Starred):
-                raise Unsupported('starred')
+                sv = self.eval(a.value, env)
+                if not isinstance(sv, (list, tuple)):
+                    raise Unsupported('starred argument')
+                args.extend(sv)
+                continue
             args.append(self.eval(a, env))
         kwargs = {k.arg: self.eval(k.value, env) for k in node.keywords if k.arg}
         q = self.cur.module.resolve(fn, set(env))
@@ -1182,6 +1213,8 @@ class SymEval:
             return self.emap(f, args[0])
         if q in IDENT:
             v = args[0]
+            if isinstance(v, Rec) and q != 'builtins.float':
+                return self.to_array(v)
             if isinstance(v, (list, tuple)):
                 try:
                     return self.to_array(v)
@@ -1258,6 +1291,23 @@ class SymEval:
                 else:
                     raise Unsupported('hstack part')
             return SArray((len(parts),), {(i,): p for i, p in enumerate(parts)})
+        if q == 'numpy.hypot':
+            return self.emap(lambda x, y: A.sqrt(A.add(A.mul(x, x), A.mul(y, y))),
+                             args[0], args[1])
+        if q in ('numpy.arcsin', 'numpy.arccos', 'numpy.arctan', 'numpy.arctan2', 'numpy.exp',
+                 'numpy.log'):
+            name = q.split('.')[-1]
+            if hasattr(A, 'func'):
+                return self.emap(lambda *xs: A.func(name, *xs), *args)
+            return self.emap(lambda *xs: A.call_atom('%s(%s)' % (name, ', '.join(
+                A.key(x) for x in xs))), *args)
+        if q == 'numpy.vstack' and isinstance(args[0], (list, tuple)) and \
+                all(isinstance(x, (Rat, int, float)) for x in args[0]):
+            # rows of per-sample scalars: (k, n) -> generic sample column
+            out = SArray((len(args[0]),), {(i,): self.rat(x) for i, x in enumerate(args[0])},
+                         None, True)
+            out.stacked_rows = True
+            return out
         if q == 'builtins.len':
             v = args[0]
             if isinstance(v, SArray):
@@ -1316,7 +1366,7 @@ class SymEval:
         return r
 
     def alloc(self, shape, default):
-        if isinstance(shape, (int, Rat)):
+        if isinstance(shape, (int, Rat, Opaque)):
             shape = (shape,)
         dims = []
         for d in shape:
@@ -1327,6 +1377,9 @@ class SymEval:
         if len(dims) >= 2 and (dims[0] == 1 or not isinstance(dims[0], int)):
             sample = True
             dims = dims[1:]
+        if len(dims) == 1 and not isinstance(dims[0], int):
+            # one value per sample: evaluated for the generic sample
+            return default if default is not None else Opaque('uninit')
         if not all(isinstance(d, int) for d in dims):
             raise Unsupported('symbolic shape %r' % (shape,))
         return SArray(tuple(dims), {}, default, sample)
